@@ -265,6 +265,9 @@ def set_center(data, origin, crop='maintain_size', axes=(0, 1), order=3,
     # don't interpolate for whole-pixels shifts
     if np.all(subpixel == 0):
         order = 0
+    elif not np.issubdtype(data.dtype, np.floating):
+        # interpolated values are not integers (scipy would round them)
+        data = data.astype(float)
     if verbose:
         print('Centering axes', tuple(axes), 'using order', order)
 
